@@ -104,6 +104,31 @@ def run(ctx):
         inp = [tok.proj_token(t) for t in s]
         out = [tok.proj_token(t) for t in real_filter(s)]
         traces.append({"inp": inp, "out": out, "src": "random"})
+    # 3b. the filter stacked on itself with a user-defined stage (a html5lib.filters.base.Filter subclass that adds an attribute)
+    #     in between: the second pass must sort what it is given (AlphaStep of the intermediate stream)
+    from html5lib.filters import base as fbase
+    from html5lib.filters.alphabeticalattributes import Filter as AFilter
+
+    class AddRel(fbase.Filter):
+        def __iter__(self):
+            for t in fbase.Filter.__iter__(self):
+                if t["type"] in ("StartTag", "EmptyTag"):
+                    t["data"][(None, "rel")] = "nofollow"
+                    t["data"][(None, "aaa")] = "1"
+                yield t
+    for k in range(60 if ctx.quick else 600):
+        s = random_stream(ctx.rng)
+        mid = [tok.proj_token(t) for t in tok.consume(AddRel(AFilter(copy.deepcopy(s))))]
+        fin = [tok.proj_token(t) for t in tok.consume(AFilter(AddRel(AFilter(copy.deepcopy(s)))))]
+        traces.append({"inp": mid, "out": fin, "src": "stacked"})
+    # 3c. schedules: one-shot sources, two live instances in lockstep, abandoned iterations
+    from .. import streams as sched
+    sample = [random_stream(ctx.rng) for _ in range(80)]
+    sched.check(ctx, "alphabetical-attributes filter", lambda src: AFilter(src), sample,
+                key=lambda out: [tok.proj_token(t) for t in out], case=lambda i: {"inp": [tok.proj_token(t) for t in sample[i]]})
+    from .. import optrun
+    _ps = [[tok.proj_token(t) for t in st] for st in sample]
+    optrun.check(ctx, "alphabeticalattributes", _ps, [[tok.proj_token(t) for t in real_filter([tok.unproj_token(t) for t in st])] for st in _ps])
     for tr in traces:
         for a, b in zip(tr["inp"], tr["out"]):
             if a["a"] != b["a"]:
